@@ -50,7 +50,7 @@ Qed.
 Lemma js_receiver_reify en pc x s : js_ok en x ->
   js_receiver (reify_e en pc x) s = if needs_paren en x then ("(" ++ s ++ ")")%string else s.
 Proof.
-  destruct x as [n|k|n|i|i|n|n|o a b|a|a|f args|f args|items|items|fam pid a|pid it mn]; intros Hok; try (cbn [js_ok] in Hok; contradiction); cbn [reify_e needs_paren js_receiver]; try reflexivity.
+  destruct x as [n|k|n|i|i|n|n|o a b|a|a|f args|f args|items|items|fam pid a|pid it mn]; intros Hok; cbn [reify_e needs_paren js_receiver]; try reflexivity.
   - rewrite str_of_int_no_quote. reflexivity.
   - destruct (nth k (e_consts en) (CInt 0)); cbn [const_node js_receiver]; [|rewrite str_of_int_no_quote; reflexivity].
     match goal with |- context[starts_with ?q ?t] => destruct (starts_with q t) end; reflexivity.
@@ -59,7 +59,53 @@ Proof.
   - rewrite reify_args_eq. destruct (reify_args en pc args); reflexivity.
   - rewrite reify_args_eq. destruct (reify_args en pc items); reflexivity.
   - rewrite reify_args_eq. destruct (reify_args en pc items); reflexivity.
+  - destruct fam; reflexivity.
 Qed.
+
+(* ---- object properties ---- *)
+Lemma sapp_assoc (a b c : string) : ((a ++ b) ++ c)%string = (a ++ (b ++ c))%string.
+Proof. induction a as [|ch a IH]; simpl; [reflexivity|]. rewrite IH. reflexivity. Qed.
+
+Lemma is_const_reify_js en pc x : js_ok en x ->
+  is_const_node (reify_e en pc x) = match x with EInt _ | EConst _ => true | _ => false end.
+Proof.
+  destruct x; intros Hok; cbn [reify_e]; try reflexivity.
+  - destruct (nth k (e_consts en) (CInt 0)); reflexivity.
+  - cbn [js_ok] in Hok. destruct (nth i (e_locals en) (Leaf KLocal "" 0 true)); try contradiction. destruct k; try contradiction. reflexivity.
+  - match goal with |- context [let '(a, b) := ?X in _] => destruct X end; reflexivity.
+  - match goal with |- context [let '(a, b) := ?X in _] => destruct X end; reflexivity.
+  - match goal with |- context [let '(a, b) := ?X in _] => destruct X end; reflexivity.
+  - match goal with |- context [let '(a, b) := ?X in _] => destruct X end. destruct items; reflexivity.
+  - destruct f; reflexivity.
+Qed.
+
+Lemma objref_js fm en pc x : PJs fm en x -> js_ok en x -> forall k po ind,
+  gen_js (ObjRef k (name_of (reify_e en pc x)) po (reify_e en pc x)) ind fm = js_leaf k (pp_js (js_raw_or en x (to_js fm en x))) fm.
+Proof.
+  intros HP Hok k po ind. cbn [gen_js]. rewrite (is_const_reify_js en pc x Hok).
+  destruct x; cbn [js_raw_or]; try (f_equal; exact (HP Hok pc ind)).
+  - cbn [reify_e pp_js]. unfold raw_const. destruct (nth k0 (e_consts en) (CInt 0)); reflexivity.
+Qed.
+
+Lemma accessor_js p obj prop ind fm o : gen_js obj ind fm = o -> String.eqb o "tell_obj" = false ->
+  gen_js (Accessor p obj prop) ind fm = (o ++ "." ++ prop)%string.
+Proof. intros E H. cbn [gen_js]. rewrite E, H. reflexivity. Qed.
+Lemma unary_js nm p obj ind fm o : gen_js obj ind fm = o -> gen_js (Unary nm p obj) ind fm = (js_una nm ++ "(" ++ o ++ ")")%string.
+Proof. intros E. cbn [gen_js]. rewrite E. reflexivity. Qed.
+Lemma ustrop_last_js p t obj ind fm o : gen_js obj ind fm = o ->
+  gen_js (UStrOp "last" p (Some t) obj) ind fm = (o ++ "." ++ t ++ "[""" ++ js_una "last" ++ """]")%string.
+Proof. intros E. cbn [gen_js]. rewrite E. reflexivity. Qed.
+Lemma ustrop_number_js p t obj ind fm o : gen_js obj ind fm = o ->
+  gen_js (UStrOp "number" p (Some t) obj) ind fm = (o ++ "." ++ t ++ "." ++ js_una "number")%string.
+Proof. intros E. cbn [gen_js]. rewrite E. reflexivity. Qed.
+Lemma ustrop_none_js nm p obj ind fm o : gen_js obj ind fm = o -> (match obj with Leaf _ _ _ _ => False | _ => True end) ->
+  gen_js (UStrOp nm p None obj) ind fm = (o ++ "." ++ js_una nm)%string.
+Proof. intros E H. cbn [gen_js]. destruct obj; try contradiction; destruct (name_is _ "menus"); rewrite E; reflexivity. Qed.
+Lemma menuitems_js p m ind fm o : gen_js m 0%nat fm = o -> gen_js (MenuItemsAcc p m) ind fm = (o ++ ".item")%string.
+Proof. intros E. cbn [gen_js]. rewrite E. reflexivity. Qed.
+Lemma menuitem_js p m i ind fm om oi : gen_js m 0%nat fm = om -> gen_js i 0%nat fm = oi ->
+  gen_js (MenuItemAcc p m i) ind fm = (om ++ "." ++ oi)%string.
+Proof. intros E1 E2. cbn [gen_js]. rewrite E1, E2. reflexivity. Qed.
 
 Theorem gen_js_is_pp fm en : forall e, PJs fm en e.
 Proof.
@@ -91,8 +137,21 @@ Proof.
   - intros l IHl Hl pc ind. cbn [js_ok] in Hl. rewrite js_ok_args_eq in Hl. cbn [reify_e to_js]. rewrite reify_args_eq.
     destruct (reify_args en pc l) as [ns pa] eqn:Er. cbn [gen_js].
     pose proof (js_list_strs fm en l IHl Hl pc ind) as E. rewrite Er in E. cbn [fst] in E. rewrite E. reflexivity.
-  - intros f pid x _ [].
-  - intros pid it mn _ _ [].
+  - (* object properties *) intros f pid x IHx [Hx Hf] pc ind. cbn [reify_e to_js].
+    pose proof (objref_js fm en pc x IHx Hx) as Hid. pose proof (IHx Hx pc) as Hg.
+    destruct f; cbn [obj_node fclass].
+    + erewrite accessor_js; [|apply Hid|reflexivity]. reflexivity.
+    + erewrite accessor_js; [|apply Hid|reflexivity]. reflexivity.
+    + erewrite accessor_js; [|apply Hid|reflexivity]. reflexivity.
+    + erewrite accessor_js; [|apply Hid|reflexivity]. reflexivity.
+    + erewrite accessor_js; [|apply unary_js; apply Hg|reflexivity]. reflexivity.
+    + erewrite ustrop_last_js; [|apply Hg]. cbn [pp_js]. repeat rewrite sapp_assoc. reflexivity.
+    + erewrite ustrop_number_js; [|apply Hg]. cbn [pp_js]. repeat rewrite sapp_assoc. reflexivity.
+    + erewrite ustrop_none_js; [|apply Hid|exact I]. reflexivity.
+    + erewrite ustrop_none_js; [|apply menuitems_js; apply Hid|exact I]. cbn [pp_js js_leaf]. repeat rewrite sapp_assoc. reflexivity.
+  - (* menu item properties *) intros pid it mn IHi IHm [Hi Hm] pc ind. cbn [reify_e to_js].
+    erewrite accessor_js; [|apply menuitem_js; [apply (objref_js fm en _ mn IHm Hm)|apply (objref_js fm en pc it IHi Hi)]|reflexivity].
+    cbn [pp_js js_leaf]. repeat rewrite sapp_assoc. reflexivity.
   - intros _ pc ind. reflexivity.
   - intros x l IHx IHl [Hx Hl] pc ind. cbn [reify_args]. destruct (reify_args en (pc + zlen (compile_e x)) l) as [ns pa] eqn:Er.
     cbn [fst map]. rewrite (IHx Hx). specialize (IHl Hl (pc + zlen (compile_e x))%Z ind). rewrite Er in IHl. cbn [fst] in IHl. rewrite IHl. reflexivity.
@@ -117,6 +176,23 @@ Lemma all_some_map (f : expr -> nexpr) (g : expr -> js) l :
   Forall (fun e => read_js (g e) = Some (f e)) l -> all_some_n (map read_js (map g l)) = Some (map f l).
 Proof. induction 1 as [|x l H _ IH]; simpl; [reflexivity|]. rewrite H, IH. reflexivity. Qed.
 
+(* no expression is written as an element of the menu bar: x.item.length is read as a chunk count unless x is _menuBar.menu[..] *)
+Lemma not_menubar_idx fm en x : match to_js fm en x with JIdx m0 _ => is_menubar m0 = false | _ => True end.
+Proof.
+  destruct x; cbn [to_js]; try exact I.
+  - destruct (nth k (e_consts en) (CInt 0)); exact I.
+  - unfold js_var. destruct (fm && _); exact I.
+  - unfold js_var. destruct (fm && _); exact I.
+  - destruct (js_binop o); unfold js_recv; try destruct (needs_paren en x1); exact I.
+  - destruct f; try exact I. reflexivity.
+Qed.
+Lemma read_count j t : (match j with JIdx m0 _ => is_menubar m0 = false | _ => True end) ->
+  read_js (JDot (JDot j t) (js_una "number")) = option_map (NChunkCount t) (read_js j).
+Proof. intros H. cbn [read_js]. rewrite String.eqb_refl. destruct j; try reflexivity. rewrite H. reflexivity. Qed.
+Lemma read_raw fm en x : read_js (to_js fm en x) = Some (name_e fm en x) ->
+  read_js (js_raw_or en x (to_js fm en x)) = Some (n_raw_or en x (name_e fm en x)).
+Proof. intros H. destruct x; try exact H; reflexivity. Qed.
+
 Theorem read_to_js fm en : forall e, read_js (to_js fm en e) = Some (name_e fm en e).
 Proof.
   apply (expr_ind2 (fun e => read_js (to_js fm en e) = Some (name_e fm en e))
@@ -140,8 +216,22 @@ Proof.
   - intros f l Hl. cbn [to_js name_e read_js]. rewrite (all_some_map (name_e fm en) (to_js fm en) l Hl). reflexivity.
   - intros l Hl. cbn [to_js name_e read_js]. rewrite (all_some_map (name_e fm en) (to_js fm en) l Hl). reflexivity.
   - intros l Hl. cbn [to_js name_e read_js]. rewrite (all_some_map (name_e fm en) (to_js fm en) l Hl). reflexivity.
-  - intros f pid x _. reflexivity.
-  - intros pid it mn _ _. reflexivity.
+  - intros f pid x Hx. pose proof (read_raw fm en x Hx) as Hr. cbn [to_js name_e].
+    destruct f.
+    + cbn [read_js]. change (obj_kind "sound") with true. cbn iota. rewrite Hr. reflexivity.
+    + cbn [read_js]. change (obj_kind "sprite") with true. cbn iota. rewrite Hr. reflexivity.
+    + cbn [read_js]. change (obj_kind "member") with true. cbn iota. rewrite Hr. reflexivity.
+    + cbn [read_js]. change (obj_kind "member") with true. cbn iota. rewrite Hr. reflexivity.
+    + cbn [read_js]. change (obj_kind "field") with true. cbn iota. rewrite Hx. reflexivity.
+    + cbn [read_js]. rewrite String.eqb_refl, Hx. reflexivity.
+    + rewrite (read_count _ _ (not_menubar_idx fm en x)), Hx. reflexivity.
+    + cbn [read_js]. change (is_menubar js_menubar) with true. cbn iota. rewrite String.eqb_refl, Hr. reflexivity.
+    + cbn [read_js]. rewrite String.eqb_refl. change (is_menubar js_menubar) with true. change (String.eqb "item" "item") with true.
+      cbn [andb]. rewrite Hr. reflexivity.
+  - intros pid it mn Hi Hm. pose proof (read_raw fm en it Hi) as Hri. pose proof (read_raw fm en mn Hm) as Hrm.
+    cbn [to_js name_e read_js]. change (is_menubar (JDot (JIdx js_menubar (js_raw_or en mn (to_js fm en mn))) "item")) with false.
+    cbn iota. change (is_menubar js_menubar) with true. change (String.eqb "item" "item") with true. cbn [andb].
+    rewrite Hri, Hrm. reflexivity.
   - constructor.
   - intros x l Hx Hl. constructor; assumption.
 Qed.
